@@ -221,8 +221,37 @@ def workload():
     quiet(lambda: productmd.compose.Compose(os.path.join(tests, "compose")).info)
 
 
+CANARY = "(7)+"        # harmless as data; visible verbatim in a pattern only if the data was NOT passed through re.escape
+
+
+def taint_scan():
+    """put the canary into one text position of one document at a time, load it, and report every pattern handed to re by
+    productmd that contains the canary verbatim: document text used as a regular expression"""
+    from pbt import c19_docs
+    docs = c19_docs.base_docs()
+    found = []
+    for name in sorted(docs):
+        for leaf in c19_docs.leaves(docs[name]):
+            for fn in (lambda old: old + CANARY, lambda old: CANARY):
+                text, cls = c19_docs.substitute(docs[name], leaf, fn)
+                before = set(seen)
+                quiet(c19_docs.load, text, cls)
+                for key in set(seen) - before:
+                    if CANARY in key[0]:
+                        found.append({"doc": name, "leaf": list(leaf), "pattern": key[0], "sites": sorted(seen[key]["sites"])})
+                for key in list(seen):
+                    if CANARY in key[0]:
+                        del seen[key]
+    return found
+
+
 def main():
     install()
+    if "--taint" in sys.argv:
+        import productmd  # noqa
+        out = taint_scan()
+        sys.stdout.write(json.dumps(out))
+        return
     workload()
     out = [{"pattern": e["pattern"], "flags": e["flags"], "sites": sorted(e["sites"]), "kinds": sorted(e["kinds"])} for e in seen.values()]
     out.sort(key=lambda e: (e["pattern"], e["flags"]))
